@@ -398,3 +398,17 @@ also13("C13", "the operation record's signal channel is buffered (a timed-out re
 also13("C15", "the rebalance decision is evaluated exhaustively (a change during the delayed re-open re-arms it); errors.As targets are read only under the true result of their own errors.As.")
 also13("C16", "the end listener handed to every observer is the stream's own (the active-stream gauge follows every end).")
 also13("C20", "a wrapper of an asynchronous operation waits for nothing but that operation and channels it made itself (no limiter, lock or queue in front of the deadline); errors.As targets are fresh.")
+
+
+def also14(pid, text):
+    t, x, r = CLAIMS[pid]
+    CLAIMS[pid] = (t, x + " ALSO DECIDED (thirteenth seeded round): " + text, r)
+
+also14("C01", "dirty marks and the save flag are cleared only after a successful store call; an event outside the announced snapshot stops the client.")
+also14("C02", "with auto-reset latest a fail-over log error is fatal and every position is stored once under its own key.")
+also14("C06", "every observer put into the observer map is built by the observer constructor at that place (nothing of an earlier stream's observer is carried over a Close).")
+also14("C12", "the session counter is advanced by the close and by nothing else; the opener of a vBucket panics on every failure of its open.")
+also14("C13", "the session counter is advanced by the close only.")
+also14("C15", "no return of a stream opener is reachable under err != nil: an open that failed is fatal whatever its error class.")
+also14("C18", "the ownership test and the serial close loop agree with the assigned chunk (inclusive bounds on both sides).")
+also14("C19", "the operation record never closes its signal channel (a late completion cannot panic); what runs in the ping completion divides by nothing that may be zero.")
